@@ -116,9 +116,9 @@ def _mutations(fn: ast.AST, cfg: CFG, name: str, def_node: int, use_node: int, d
             if isinstance(n, ast.For):
                 iters.append((unparse(n.target), unparse(n.iter)))
         facts = frozenset(norm_facts(guard_facts(fn, st)))
-        if tgt == "add" and call is not None and len(call.args) == 1:
+        if tgt in ("add", "append") and call is not None and len(call.args) == 1:
             d.adds.append(Add(unparse(call.args[0]), tuple(reversed(iters)), facts))
-        elif tgt in ("update", "|=") and not iters and not facts:
+        elif tgt in ("update", "|=", "extend") and not iters and not facts:
             v = call.args[0] if call is not None else st.value  # type: ignore[union-attr]
             d.merge(describe(fn, cfg, v, sn, depth - 1))
         else:
